@@ -77,8 +77,8 @@ def element_unit():
     I(Fn("new", ensures="r == (Element { x, y, z, t })", props=("C04",), preamble=BUM))
     I(Fn("from_affine", ensures="mrepr(r) == (P4 { x: x.val(), y: y.val(), z: 1, t: fmul(x.val(), y.val()) })", props=("C06",), preamble=BUM))
     I(Fn("is_identity", ensures="r == spec_is_identity(mrepr(*self))", props=("C08", "C12"), preamble=BUM))
-    I(Fn("double", ensures="mrepr(r) == te_double_min(mrepr(self))", props=("C04", "C12"), preamble=BUM))
-    I(Fn("vartime_compress_to_field", ensures="r.val() == spec_encode(mrepr(*self))", props=("C01", "C03", "C12"), preamble=BUM))
+    I(Fn("double", ensures="mrepr(r) == te_double_min(mrepr(self))", props=("C04", "C12"), preamble=BUM + " broadcast use comm_ops;"))
+    I(Fn("vartime_compress_to_field", ensures="r.val() == spec_encode(mrepr(*self))", props=("C01", "C03", "C12"), preamble=BUM + " broadcast use comm_ops;"))
     I(Fn("vartime_compress", ensures="r.0 == le32(spec_encode(mrepr(*self))), r.0@[31] < 32", props=("C01", "C03", "C12"), preamble=BUM))
     I(Fn("elligator_map", ensures="mrepr(r) == ell_opt(r_0.val())", props=("C07", "C12"), preamble=BUM, rlimit=80))
     I(Fn("hash_to_curve", ensures="mrepr(r) == te_add_min(ell_opt(r_1.val()), ell_opt(r_2.val()))", props=("C07", "C12"), preamble=BUM))
